@@ -1,7 +1,7 @@
 (* Entry points of the executable model, by name.  Used both by the extracted
    OCaml driver and by vm_compute in generated cases files. *)
 From Coq Require Import ZArith QArith List String Bool.
-From SKC Require Import Model.Val Base.QBool Base.QList Base.QRank Model.Dominance Model.Agg Model.Electre Model.Result Model.Select Model.Transform Model.Weights Model.Filters Model.Untie Model.Diff Model.Pipeline Model.Impute Model.RRT.
+From SKC Require Import Model.Val Base.QBool Base.QList Base.QRank Model.Dominance Model.Agg Model.Electre Model.Result Model.Select Model.Transform Model.Weights Model.Filters Model.Untie Model.Diff Model.Pipeline Model.Impute Model.RRT Model.Simus.
 Import ListNotations.
 Local Open Scope string_scope.
 
@@ -271,6 +271,29 @@ Definition run_rrt (a : list bool * list (list Q) * Z * list Q * list (nat * lis
 Definition run_schedule (a : list Z * nat) : val :=
   eL (fun p => VL [eN (fst p); eZ (snd p)]) (schedule (fst a) (snd a)).
 
+(* ---- C09: SIMUS ------------------------------------------------------------------------------------ *)
+Definition eLp (p : lp) : val := VL [eL eQ (lp_c p); eTable eQ (lp_A p); eL eQ (lp_b p)].
+Definition dStage := dP4 (dL dB) dMatrix (dL (dO dQ)) dN.
+Definition run_stage_lp (a : list bool * list (list Q) * list (option Q) * nat) : val :=
+  let '(objs, tm, user, z) := a in
+  let bv := default_b objs tm user in
+  VL [eLp (stage_lp objs tm bv z); eL eQ bv].
+Definition run_check_cert (a : (list bool * list (list Q) * list (option Q) * nat) * list Q * list Q) : val :=
+  let '((objs, tm, user, z), x, y) := a in
+  let p := stage_lp objs tm (default_b objs tm user) z in
+  VL [eB (check_cert p x y); eQ (stage_value objs tm z x)].
+(* A x, b, c.x for a credited value vector (the harness applies the tolerance) *)
+Definition run_stage_eval (a : (list bool * list (list Q) * list (option Q) * nat) * list Q) : val :=
+  let '((objs, tm, user, z), x) := a in
+  let p := stage_lp objs tm (default_b objs tm user) z in
+  VL [eL eQ (mv (lp_A p) x); eL eQ (lp_b p); eQ (stage_value objs tm z x)].
+Definition run_simus_scores (a : nat * list (list Q)) : val :=
+  let (n, sr) := a in
+  let '(sc, p, s, d) := second_method n sr in
+  VL [eL eQ (first_method n sr); eL eQ sc; eL eQ p; eL eQ s; eTable eQ d].
+Definition run_normalise_rows (rs : list (list Q)) : val := eTable eQ (map normalise_row rs).
+Definition run_credit_sorted (vals : list Q) : val := eL eQ (credit_sorted vals).
+
 Definition dispatch (fn : string) (arg : val) : val :=
   if fn =? "dominance" then with_arg (dP2 (dL dB) dMatrix) run_dominance arg
   else if fn =? "rank" then with_arg (dP2 dB (dL dQ)) run_rank arg
@@ -295,6 +318,12 @@ Definition dispatch (fn : string) (arg : val) : val :=
   else if fn =? "simple_impute" then with_arg (dP3 dZ dQ (dL (dL (dO dQ)))) run_simple_impute arg
   else if fn =? "rrt" then with_arg (dP5 (dL dB) dMatrix dZ (dL dQ) (dL (dP2 dN (dL dQ)))) run_rrt arg
   else if fn =? "schedule" then with_arg (dP2 (dL dZ) dN) run_schedule arg
+  else if fn =? "stage_lp" then with_arg dStage run_stage_lp arg
+  else if fn =? "check_cert" then with_arg (dP3 dStage (dL dQ) (dL dQ)) run_check_cert arg
+  else if fn =? "stage_eval" then with_arg (dP2 dStage (dL dQ)) run_stage_eval arg
+  else if fn =? "simus_scores" then with_arg (dP2 dN dMatrix) run_simus_scores arg
+  else if fn =? "normalise_rows" then with_arg dMatrix run_normalise_rows arg
+  else if fn =? "credit_sorted" then with_arg (dL dQ) run_credit_sorted arg
   else if fn =? "wsm" then with_arg dDM run_wsm arg
   else if fn =? "ratio" then with_arg dDM run_ratio arg
   else if fn =? "refpoint" then with_arg dDM run_refpoint arg
